@@ -35,15 +35,24 @@ def run(ctx):
                  "and it contains >= 1 successful write access / dirty mark or a relocation by removal",
             samples=s["samples"], trusted_base=vc.TRUSTED_BASE,
             op_histogram=s["hist"], batches=s["per_batch"],
-            exhaustive="all %d-op sequences over a 12-op alphabet (update, runs of 3 jobs, mutable/const access, "
+            exhaustive="all %d-op sequences over a 14-op alphabet (update, runs of 3 jobs, mutable/const access, "
                        "markDirty, destroy, assign, remove, create) after a fixed prefix"
                        % (4 if ctx.thorough else 3),
             job_runs=st.get("runs", 0), runs_with_work=st.get("runs_work", 0), runs_without_work=st.get("runs_empty", 0),
             pending_entities_checked=st.get("pending_checked", 0), write_accesses=st.get("writes", 0),
             other_job_write_marks=st.get("other_job_writes", 0), relocations_by_removal=st.get("relocations", 0),
             archetypes_created=st.get("arch_created", 0), chunk_sizes_seen=st.get("cs_seen", {}),
+            runs_whose_body_modified_the_world=st.get("body_runs", 0),
+            body_immediate_writes=st.get("body_immediate_writes", 0),
+            body_deferred_structural_changes=st.get("body_deferred_changes", 0),
+            runs_of_jobs_with_chunk_filter=st.get("runs_with_chunk_filter", 0),
+            vetoed_chunks_skipped=st.get("vetoed_chunks_skipped", 0),
+            runs_of_jobs_with_archetype_filter=st.get("runs_with_archetype_filter", 0),
+            archetypes_closed_by_dependency=st.get("archetypes_closed_by_dependency", 0),
             tie_divergences=s["tie_breaks"], searched_after_divergence=s["searched"])
     ctx.assume("32-bit world version does not wrap (w < 2^32)",
                "World::init() (version reset) is outside the operation set",
-               "user-supplied extra archetype/chunk filters are constant predicates",
+               "user-supplied extra archetype/chunk filters are constant predicates (harness: archetype-has-none-of / chunk-index parity)",
+               "a job body issues at most one deferred command per entity and never one that makes an archetype configuration "
+               "contradictory (an exception inside unlock() terminates); deferred commands take valid handles",
                "jobs run in JobRunMode::kCurrentThread (task splitting is C04/C06)")
